@@ -493,6 +493,7 @@ func c12Notes(c *Case, xs []*c12Exec) {
 
 func c12Random(r *Run) func(c *Case, rng *Rng) {
 	return func(c *Case, rng *Rng) {
+		rng = c13Reseed(rng) // see c13.go: neighbouring cases must not share their random numbers
 		nh := rng.Range(1, 3)
 		env, err := c12Setup(r, c, c12HookFiles[:nh])
 		if err != nil {
@@ -626,6 +627,7 @@ func runC12(r *Run) {
 			}
 		}
 		r.Cases(1000000, len(combos), 0, func(c *Case, rng *Rng) {
+			rng = c13Reseed(rng)
 			k := combos[c.Idx-1000000]
 			env, err := c12Setup(r, c, c12HookFiles[:1])
 			if err != nil {
